@@ -26,6 +26,7 @@ CFG_TIMEOUT_S = {"quick": 500, "thorough": 1800}
 F = Fraction
 
 META = dict(
+    technique='taint-tracking symbolic execution (no-float claim), paired float/exact runs compared by z3 linear arithmetic for all |P_i|<=1, exact big-rational identities, minimal point type run symbolically',
     bounds=dict(
         quick="6 knot vectors of degree 1..3; operations: eval, basis functions, knot_insert, knot_remove, degree_increase, degree_decrease, "
               "split, join, + - *, fit_curve, fit_points, Integrate.scalar; float variants float and numpy.float64; big-rational variants; "
